@@ -10,7 +10,7 @@ from ..runner import drive
 RULE = ("(i) generated DAE blocks (fx, fy, gx, gy, T) assigned to a bare System's dae and fed to the routine's documented "
         "methods (calc_As, calc_pfactor, _store_stats): sizes 1..8 x 1..6, regular gy, any number/position of zero time "
         "constants, spectra with eigenvalues planted at 0, +-tol/2, +-2 tol; (ii) EIG.run() on stock dynamic cases, also "
-        "after a time constant was altered to 0 or a parameter swept. Oracle: scipy.linalg.eig on the full pencil "
+        "after a time constant was altered to 0 or a parameter swept, and a second time on the same system object after the time constant was restored or another parameter swept. Oracle: scipy.linalg.eig on the full pencil "
         "([[fx,fy],[gx,gy]], diag(T,0)) - finite generalised eigenvalues as a multiset; As == T^-1 (fx - fy gy^-1 gx) "
         "by dense numpy for T without zeros; counts partition the spectrum and equal the oracle's counts; participation "
         "factors >= 0, each mode sums to 1, equal |w_k v_k| / sum from independently computed left/right eigenvectors, "
@@ -243,7 +243,8 @@ ZERO_ALTER = [('EXDC2', 'TB'), ('EXDC2', 'TA'), ('TGOV1', 'T1'), ('ESST3A', 'TA'
 def sys_cases(draw):
     have = [p for p in SYS_CASES if os.path.isfile(os.path.join(build.cases_root(), p))]
     return dict(path=draw(st.sampled_from(have)), zero=draw(st.one_of(st.none(), st.sampled_from(ZERO_ALTER))),
-                sel=draw(st.integers(0, 20)), sweep=draw(st.one_of(st.none(), st.sampled_from([0.5, 2.0]))))
+                sel=draw(st.integers(0, 20)), sweep=draw(st.one_of(st.none(), st.sampled_from([0.5, 2.0]))),
+                again=draw(st.sampled_from([None, 'restore', 'restore', 'sweep'])), restore_to=draw(st.sampled_from([0.05, 0.4])))
 
 
 def sys_case(ctx, c):
@@ -267,6 +268,23 @@ def sys_case(ctx, c):
         note += ' M*%g' % c['sweep']
     if not ss.PFlow.run():
         return
+    if not _analyse(ctx, ss, c, note, 'first'):
+        return
+    # the same system object analysed again after a further parameter change (a sweep re-uses one object)
+    again = c.get('again')
+    if again == 'restore' and c['zero'] is not None:
+        mdl.alter(p, idx, c.get('restore_to', 0.05))
+        ctx.count('sys:again_time_constant_restored')
+        _analyse(ctx, ss, c, note + ' then %s.%s[%s]=%g' % (mname, p, idx, c.get('restore_to', 0.05)), 'again')
+    elif again == 'sweep' and ss.GENROU.n:
+        idx2 = ss.GENROU.idx.v[(c['sel'] + 1) % ss.GENROU.n]
+        ss.GENROU.alter('D', idx2, 2.0)
+        ctx.count('sys:again_after_sweep')
+        _analyse(ctx, ss, c, note + ' then GENROU.D[%s]=2' % idx2, 'again')
+
+
+def _analyse(ctx, ss, c, note, stage):
+    from kvxopt import matrix
     try:
         ok = ss.EIG.run()
     except Exception as e:
@@ -286,25 +304,33 @@ def sys_case(ctx, c):
             pass
         ctx.fail('eigenanalysis_raised', dict(case=c, note=note, error='%s: %s' % (type(e).__name__, str(e)[:200]), zero_block_singular=singular),
                  sig=dict(level='system', zero_T=zero_T > 0, error=type(e).__name__, zero_block_singular=singular))
-        return
+        return False
     if not ok:
         ctx.count('sys:eig_returned_false')
-        return
+        return False
     dae = ss.dae
     fx, fy, gx, gy = (np.array(matrix(getattr(dae, k))) for k in ('fx', 'fy', 'gx', 'gy'))
     T = np.array(dae.Tf, dtype=float)
-    brief = dict(c, note=note, n=int(dae.n), zero_T=int(np.sum(T == 0)))
+    brief = dict(c, note=note, n=int(dae.n), zero_T=int(np.sum(T == 0)), stage=stage)
     check_spectrum(ctx, brief, np.array(ss.EIG.mu), ss.EIG.pfactors, ss.EIG.x_name, fx, fy, gx, gy, T, ss.EIG.config.tol,
-                   (ss.EIG.n_positive, ss.EIG.n_zeros, ss.EIG.n_negative), dict(level='system'))
+                   (ss.EIG.n_positive, ss.EIG.n_zeros, ss.EIG.n_negative), dict(level='system', stage=stage))
     ctx.count('sys:checked')
     if int(np.sum(T == 0)) > 0 or np.any(np.abs(np.real(ss.EIG.mu)) <= ss.EIG.config.tol):
         ctx.nontrivial(brief, sample=brief)
+    return True
 
 
 def camp_sys(ctx):
     def body(c):
         ctx.evaluated()
         sys_case(ctx, c)
+    if ctx.shard < 2:
+        # anchor: one system object analysed with a zero time constant, then again after the time constant was restored
+        c = dict(path='kundur/kundur_full.xlsx', zero=('EXDC2', 'TA') if ctx.shard == 0 else ('TGOV1', 'T1'), sel=ctx.shard, sweep=None,
+                 again='restore', restore_to=0.05)
+        ctx.current_case = c
+        ctx.count('anchor:analysed_again_after_restore')
+        body(c)
     drive(ctx, sys_cases(), body, 4 if ctx.tier == 'quick' else 60, name='systems', shrink=False, budget_s=150 if ctx.tier == 'quick' else 1500)
 
 
